@@ -60,6 +60,11 @@ CONSTANTS = {
          r"lhs_is_null\s*\|\|\s*\(lhs_is_null == rhs_is_null\)\s*&&\s*equal_range\(\s*lhs_values,\s*rhs_values,\s*lhs_keys\[lhs_pos\]\.to_usize\(\)\.unwrap\(\),\s*rhs_keys\[rhs_pos\]\.to_usize\(\)\.unwrap\(\),\s*(\d+),", "int"),
         ("VAR_OFFSETS", "arrow-data/src/equal/variable_size.rs",
          r"let lhs_offsets_slice = &lhs_offsets\[lhs_start\.\.lhs_start \+ len \+ (\d+)\];\s*let rhs_offsets_slice = &rhs_offsets\[rhs_start\.\.rhs_start \+ len \+ 1\];\s*lengths_equal\(lhs_offsets_slice, rhs_offsets_slice\)\s*&&\s*offset_value_equal\(", "int"),
+        # arrow-select dictionary merge (concat / interleave of dictionaries): a null dictionary VALUE is interned as None, never by the bytes under it
+        ("MERGE_PRIMITIVE_VALUE_VALIDITY", "arrow-select/src/dictionary.rs",
+         H + r"for idx in mask\.set_indices\(\) \{\s*out\.push\(\(\s*idx,\s*array\.is_valid\(idx\)\.then_some\(values\[idx\]\.to_byte_slice\(\)\),\s*\)\)\s*\}", "int"),
+        ("MERGE_BYTES_VALUE_VALIDITY", "arrow-select/src/dictionary.rs",
+         H + r"for idx in mask\.set_indices\(\) \{\s*out\.push\(\(\s*idx,\s*array\.is_valid\(idx\)\.then_some\(array\.value\(idx\)\.as_ref\(\)\),\s*\)\)\s*\}", "int"),
         # ArrayData::slice: the Struct special case (sliceModel, sliceModel_struct_not_spec)
         ("SLICE_STRUCT", "arrow-data/src/data.rs",
          H + r"if let DataType::Struct\(_\) = self\.data_type\(\) \{\s*// Slice into children\s*let new_offset = self\.offset \+ offset;.*?\.map\(\|data\| data\.slice\(offset, length\)\).*?new_data\.offset = offset \+ self\.offset;\s*new_data\.nulls = self\.nulls\.as_ref\(\)\.map\(\|x\| x\.slice\(offset, length\)\);", "int"),
